@@ -1,0 +1,38 @@
+//go:build verif
+
+// Contracts for the deductive verifier under /verif (comment-only file: it
+// adds no code; compiled only with -tags verif).
+package conduiterr
+
+// C20: a coded error keeps its code under wrapping.
+//verif:func (*ConduitError).Unwrap(e) (r)
+//verif:ensures[child-is-field] r == e.err
+//verif:modifies nothing
+
+//verif:func Get(err) (ce, ok)
+//verif:ensures[first-coded] ok == err_has(err, typeid("*conduiterr.ConduitError"))
+//verif:ensures[value] ok ==> ce != nil && iface(ce) == err_find(err, typeid("*conduiterr.ConduitError"))
+//verif:ensures[none] !ok ==> ce == nil
+//verif:modifies nothing
+
+//verif:func Wrap(code, msg, cause) (e)
+//verif:ensures[fresh] e != nil && fresh(e)
+//verif:ensures[child] cause != nil ==> e.err == cause
+//verif:ensures[child-never-nil] e.err != nil
+//verif:ensures[inner-code-not-shadowed] cause != nil && err_has(cause, typeid("*conduiterr.ConduitError")) ==> e.Code == asptr(err_find(cause, typeid("*conduiterr.ConduitError")), "*conduiterr.ConduitError").Code
+//verif:ensures[own-code-otherwise] cause == nil || !err_has(cause, typeid("*conduiterr.ConduitError")) ==> e.Code == code
+//verif:ensures[message] e.Message == msg
+
+//verif:func WithCode(err, code) (e)
+//verif:ensures[fresh] e != nil && fresh(e)
+//verif:ensures[code-always-given] e.Code == code
+//verif:ensures[child] err != nil ==> e.err == err
+//verif:ensures[child-never-nil] e.err != nil
+
+//verif:func New(code, msg) (e)
+//verif:ensures[fresh] e != nil && fresh(e)
+//verif:ensures[code] e.Code == code && e.Message == msg && e.err != nil
+
+//verif:func (Code).GRPCCode(c) (r)
+//verif:ensures r == c.grpcCode
+//verif:pure
